@@ -369,22 +369,14 @@ Proof.
 Qed.
 
 (** ** cases as data: everything is a dyadic literal (mantissa, exponent) *)
-Definition zd := (Z * Z)%type.
-Definition zvec := (zd * zd * zd)%type.
-Definition rd (d : zd) : R := dy (fst d) (snd d).
 Definition id_ (d : zd) : I.type := idy (fst d) (snd d).
-Definition rv (v : zvec) : vec := (rd (fst (fst v)), rd (snd (fst v)), rd (snd v)).
 Definition iv (v : zvec) : ivec := (id_ (fst (fst v)), id_ (snd (fst v)), id_ (snd v)).
 Lemma encl_d d : encl (id_ d) (rd d).
 Proof. apply encl_dy. Qed.
 Lemma encl3_v v : encl3 (iv v) (rv v).
 Proof. unfold encl3, iv, rv, vx, vy, vz, ix, iy, iz; simpl. repeat split; apply encl_d. Qed.
 
-Definition zw := (zd * zd * zd)%type.
-Record zconsts := mkZ { z_add : bool; z_ea : zd; z_el : zd; z_no : zw; z_in : zw; z_as : zw }.
-Definition rw (w : zw) : R * R * R := (rd (fst (fst w)), rd (snd (fst w)), rd (snd w)).
 Definition iw_ (w : zw) : iw := (id_ (fst (fst w)), id_ (snd (fst w)), id_ (snd w)).
-Definition rk (z : zconsts) : consts := mkConsts (z_add z) (rd (z_ea z)) (rd (z_el z)) (rw (z_no z)) (rw (z_in z)) (rw (z_as z)).
 Definition ik_ (z : zconsts) : iconsts := mkI (z_add z) (id_ (z_ea z)) (id_ (z_el z)) (iw_ (z_no z)) (iw_ (z_in z)) (iw_ (z_as z)).
 Lemma enclk_z z : enclk (ik_ z) (rk z).
 Proof.
